@@ -215,6 +215,41 @@ def repeat_histories():
     return hs
 
 
+def cwd_histories():
+    """the working directory removed, moved away or replaced by something else, then calls that depend on it"""
+    hs = []
+    setups = [[op("mkdir_p", "/d/s"), op("mkfile", "/d/f"), op("set_cwd", "/d")],
+              [op("mkdir_p", "/d/s"), op("mkdir_p", "/o"), op("symlink", "/l", "/d"), op("set_cwd", "/l")],
+              [op("mkdir_p", "/d/s"), op("set_cwd", "/d/s")]]
+    breaks = [[op("remove_all", "/d")], [op("move_p", "/d", "/e")], [op("remove_all", "/d"), op("mkfile", "/d")], [op("remove_all", "/d"), op("mkdir_p", "/o"), op("symlink", "/d", "/o")],
+              [op("remove_all", "/d"), op("mkdir_p", "/d")], [op("remove", "/d/s")], [op("remove", "/d/f")], [op("remove_all", "/d/s"), op("mkfile", "/d/s")], []]
+    afters = [[op("set_cwd", ".")], [op("set_cwd", "/d")], [op("set_cwd", "..")], [op("set_cwd", "s")], [op("mkfile", "x")], [op("mkdir_p", "y/z")], [op("write_all", "w", b"1")],
+              [op("remove", ".")], [op("symlink", "k", "f")], [op("set_cwd", "/d"), op("set_cwd", ".")], [op("set_cwd", "/"), op("set_cwd", "d")]]
+    probes = [op("cwd"), op("exists", "."), op("is_dir", "."), op("abs", "x"), op("exists", "x"), op("exists", "/d/x"), op("exists", "/o/x"), op("exists", "/e/x"), op("all_paths", "/")]
+    for su in setups:
+        for br in breaks:
+            for af in afters:
+                hs.append("\t".join(["hist", "m", envspec(MEM_ENV)] + su + br + af + probes))
+    return hs
+
+
+def append_handle_histories():
+    """an append (or write) handle that has flushed once, the file changing underneath it, and the handle flushing again"""
+    hs = []
+    first = [["hwrite:0:%s" % b"AA".hex(), "hflush:0"], ["hflush:0"], ["hwrite:0:%s" % b"AA".hex()]]
+    under = [[op("write_all", "/f", b"x")], [op("write_all", "/f", b"a much longer replacement")], [op("append_all", "/f", b"+")], [op("write_all", "/f", b"")],
+             ["open_a:%s" % hx("/f"), "hwrite:1:%s" % b"123".hex(), "hflush:1"], ["open_a:%s" % hx("/f"), "hwrite:1:%s" % b"a longer chunk".hex(), "hdrop:1"],
+             ["open_w:%s" % hx("/f"), "hwrite:1:%s" % b"W".hex(), "hflush:1"], [op("remove", "/f"), op("write_all", "/f", b"new")], []]
+    second = [["hwrite:0:%s" % b"BB".hex(), "hflush:0"], ["hwrite:0:%s" % b"BB".hex(), "hflush:0", "hwrite:0:%s" % b"CC".hex(), "hdrop:0"], ["hflush:0", "hflush:0"], ["hdrop:0"]]
+    for opener in ["open_a:%s" % hx("/f"), "open_w:%s" % hx("/f")]:
+        for init in [b"hello", b""]:
+            for f1 in first:
+                for un in under:
+                    for f2 in second:
+                        hs.append("\t".join(["hist", "h", envspec(MEM_ENV), op("write_all", "/f", init), opener] + f1 + un + f2 + [op("read_all", "/f")]))
+    return hs
+
+
 def stale_handle_histories(tier):
     """a write / append handle that outlives its file: the path is removed (or moved away) and possibly re-created as something
     else before the handle is flushed or dropped"""
@@ -329,6 +364,34 @@ def walk_canon(out):
     return "\t".join(fs)
 
 
+def walk_canon_ties(out):
+    """sorted traversals that follow links: a followed link is named by its target and can tie with a sibling of that name, and the sort leaves
+    ties in HashSet order. When some directory of the tree has two children that would carry the same name once links are followed, the item
+    list is compared as a multiset; otherwise the order is compared exactly"""
+    fs = out.split("\t")
+    if not fs or not fs[-1].startswith("#"):
+        return walk_canon(out)
+    try:
+        tree = walkspec.parse_snapshot(fs[-1])
+    except Exception:
+        return walk_canon(out)
+    tie = False
+    for p, e in tree.items():
+        if not e["files"]:
+            continue
+        names = []
+        for n in e["files"]:
+            c = tree.get(walkspec.join(p, n))
+            if c is not None and c["link"] and c["alt"] is not None:
+                names.append(walkspec.name(c["alt"]))
+            else:
+                names.append(n)
+        if len(set(names)) != len(names):
+            tie = True
+            break
+    return walk_canon(out) if tie else out
+
+
 def c08_streams(tier, rng, ctx):
     ntrees = 120 if tier == "quick" else 1500
     env = dict(MEM_ENV)
@@ -372,7 +435,7 @@ def c08_streams(tier, rng, ctx):
     return [
         Stream("walk-sorted", "mirror", hs_sorted, impl_env=env, canon=hist_canon, judge=lambda l, o: not c08_pycheck(l, o),
                # a followed link is named by its target, so it can tie with a sibling of that name and the sort leaves ties in HashSet order
-               canon_line=lambda l, o: walk_canon(o) if "follow=1" in l.split("\t")[-1] else o,
+               canon_line=lambda l, o: walk_canon_ties(o) if "follow=1" in l.split("\t")[-1] else o,
                nontrivial=lambda l, o: o.count(",") >= 2,
                rule="random trees (<= 7 entries, multi-byte names, links incl. cycles and dangling) x option records with a name sort: exact sequence vs the mirror"),
         Stream("walk-unsorted", "mirror", hs_unsorted, impl_env=env, canon=walk_canon, judge=lambda l, o: not c08_pycheck(l, o),
@@ -533,6 +596,9 @@ def c06_streams(tier, rng, ctx):
     hl.append("\t".join(["hist", "h", envspec(MEM_ENV), "open_a:%s" % hx("/f"), op("append_all", "/f", b"x"), "hdrop:0", op("read_all", "/f")]))
     sts.append(Stream("c06-handles", "mirror", hl, impl_env=dict(MEM_ENV), judge=lambda l, o: True,
                       rule="write / append handles opened, written, flushed and dropped at every point, interleaved with write_all / append_all / remove on the same file"))
+    sts.append(Stream("c06-handles-under-change", "mirror", append_handle_histories(), impl_env=dict(MEM_ENV), judge=lambda l, o: True, exhaustive=True,
+                      rule="an append / write handle that has flushed once, the file changing underneath it (write_all, append_all, another handle, re-creation), and the handle "
+                           "writing, flushing and dropping again: the content read back"))
     sts.append(Stream("c06-stale-handles", "mirror", stale_handle_histories(tier), impl_env=dict(MEM_ENV), judge=lambda l, o: True, exhaustive=True,
                       rule="a write / append handle that outlives its file (removed, moved away, re-created as a directory, link or new file): what read_all returns afterwards"))
     # the same content laws on the real filesystem: files of different lengths overwritten, appended, copied over each other and moved, on both backends side by side
@@ -595,12 +661,24 @@ def c12_streams(tier, rng, ctx):
                          op("chown", "/", 5, 6), op("chmod", "/d", 0o700), op("copy", "/d", "/e"), op("all_paths", "/"), op("all_dirs", "/d"),
                          op("all_files", "/"), op("remove_all", "/d/d"), op("move_p", "/d", "/m")]:
                 hs.append("\t".join(["hist", "m", envspec(MEM_ENV)] + mk + [call, op("exists", "/"), op("is_dir", deep)]))
+    # the path helpers are calls too: every unary helper on all short strings over separators, dots, 1-, 2- and 3-byte characters, and the
+    # adversarial arguments; every binary helper on pairs of them
+    import c_path
+    hstr = list(c_path.all_strings(["/", ".", "a", "é", "€"], 5 if tier == "quick" else 6)) + adv
+    hl = []
+    for fn in ["base", "first", "dir", "ext", "name", "trim_ext", "trim_first", "trim_last", "is_empty", "parse_paths", "trim_protocol"]:
+        hl += [c_path.line(fn, x) for x in hstr]
+    hshort = list(c_path.all_strings(["/", ".", "a", "é"], 3)) + adv[:20]
+    for fn in ["trim_prefix", "trim_suffix", "has", "has_prefix", "has_suffix", "mash", "concat"]:
+        hl += [c_path.line(fn, x, y) for x in hshort for y in hshort]
     rh = random_histories(rng, 2000 if tier == "quick" else 20000, 10, tier)
     bad = lambda l, o: ("PANIC" in o or "POISONED" in o or "CRASH" in o or "HANG" in o)
     return [
         Stream("c12-adversarial", "mirror", hs, impl_env=dict(MEM_ENV), canon=hist_canon, canon_line=failed_traversal_canon, judge=bad,
                nontrivial=lambda l, o: True,
                rule="adversarial argument strings into every Memfs method (each under catch_unwind, followed by a probe call that a poisoned lock would fail)"),
+        Stream("c12-helpers", "pycheck", hl, pycheck=lambda l, o: not bad(l, o), exhaustive=True,
+               rule="every path helper on all strings up to length 5 over '/', '.', 'a', a 2-byte and a 3-byte character and on the adversarial arguments (binary helpers on pairs): no PANIC"),
         Stream("c12-no-panic", "pycheck", hs + rh, impl_env=dict(MEM_ENV), pycheck=lambda l, o: not bad(l, o),
                rule="no PANIC / POISONED / CRASH / HANG marker in any transcript"),
     ]
@@ -628,6 +706,10 @@ def c01_streams(tier, rng, ctx):
         for q in ["/a", "/b", "/c/d", "../x"]:
             finals += [op("move_p", p, q), op("symlink", p, q)]
     sts += frame_streams(tier, rng, ctx, finals, [("failed-call-frame", frames.failed_call_frame)], "c01f", depth_q=2, maxs_q=250)
+    sts.append(Stream("cwd-gone", "mirror", cwd_histories(), impl_env=dict(MEM_ENV), exhaustive=True, canon=hist_canon, canon_line=failed_traversal_canon,
+                      judge=lambda l, o: True,
+                      rule="the working directory (entered directly or through a link) removed, moved away or replaced by a file, a link or a new directory, then "
+                           "set_cwd / relative creations / cwd() / abs(): every result and the complete state compared"))
     sts.append(Stream("repeat-after-change", "mirror", repeat_histories(), impl_env=dict(MEM_ENV), exhaustive=True, canon=hist_canon, canon_line=failed_traversal_canon,
                       judge=lambda l, o: True,
                       rule="a traversal-based call (chown, chmod, copy, remove_all, listings), a change inside the tree it covered, the same call again, then every "
@@ -666,6 +748,19 @@ def c20_streams(tier, rng, ctx):
     hs, info = bfs_histories(ctx, tier, depth, 300 if tier == "quick" else 4000, muts=SETUP, finals=finals, mode="m", tag="c20")
     fset = set(finals)
     hs = [h for h in hs if h.split("\t")[-1] in fset]
+    # states the setup alphabet does not reach: files whose bytes are not valid UTF-8 (read_all fails on them), an empty file, links to those
+    pre = [op("mkdir_p", "/a"), op("write_all", "/a/bad", b"pr\xe2\x82"), op("write_all", "/f", b"\xff\xfe"), op("write_all", "/e", b""),
+           op("symlink", "/l", "/f"), op("symlink", "/le", "/e"), op("symlink", "/ld", "/a")]
+    for p in ["/a/bad", "/f", "/e", "/l", "/le", "/ld", "/a"]:
+        for mname in ["exists", "no_exists", "is_dir", "no_dir", "is_file", "no_file", "is_symlink", "no_symlink", "mkdir_p", "mkfile", "remove", "remove_all"]:
+            hs.append("\t".join(["hist", "m", envspec(MEM_ENV)] + pre + ["macro:%s:%s" % (mname, hx(p))]))
+        for d in [b"xy", b"", b"pr", "pr\u20ac".encode()]:        # the macros take their expected data as text: valid UTF-8 only
+            hs.append("\t".join(["hist", "m", envspec(MEM_ENV)] + pre + ["macro:read_all:%s:%s" % (hx(p), d.hex())]))
+            hs.append("\t".join(["hist", "m", envspec(MEM_ENV)] + pre + ["macro:write_all:%s:%s" % (hx(p), d.hex())]))
+        for t in ["/f", "/e", "/a", "f"]:
+            hs.append("\t".join(["hist", "m", envspec(MEM_ENV)] + pre + ["macro:readlink:%s:%s" % (hx(p), hx(t))]))
+            hs.append("\t".join(["hist", "m", envspec(MEM_ENV)] + pre + ["macro:readlink_abs:%s:%s" % (hx(p), hx(t))]))
+            hs.append("\t".join(["hist", "m", envspec(MEM_ENV)] + pre + ["macro:symlink:%s:%s" % (hx(p), hx(t))]))
     return [Stream("macros-memfs", "mirror", hs, impl_env=dict(MEM_ENV), exhaustive=True, judge=lambda l, o: True,
                    nontrivial=lambda l, o: "\tpass\t" in o,
                    rule="every state of the bounded namespace (%s) x every path x every assert_vfs_* macro, invoked under catch_unwind on the real Memfs; "
@@ -1009,6 +1104,20 @@ def c11_tree_streams(tier, rng, ctx):
                rule="chown / chmod, a change inside the tree, the same call again: every owner / mode read back and the complete state vs the mirror"),
     ]
 
+
+def c07_state_streams(tier, rng, ctx):
+    return [
+        Stream("handles-under-change", "mirror", append_handle_histories(), impl_env=dict(MEM_ENV), judge=lambda l, o: True, exhaustive=True,
+               rule="an append / write handle that has flushed once, the file changing underneath it (write_all, append_all, another handle, re-creation), and the handle "
+                    "writing, flushing and dropping again: what each flush makes visible and what the drop persists"),
+        Stream("stale-handles", "mirror", stale_handle_histories(tier), impl_env=dict(MEM_ENV), judge=lambda l, o: True, exhaustive=True,
+               rule="a write / append handle that outlives its file (removed, moved away, re-created as a directory, link or new file), then written, flushed or dropped"),
+    ]
+
+
+_c07_core = c_core.PROPS["C07"]["streams"]
+PROPS["C07"] = dict(c_core.PROPS["C07"])
+PROPS["C07"]["streams"] = lambda tier, rng, ctx: _c07_core(tier, rng, ctx) + c07_state_streams(tier, rng, ctx)
 
 _c11_expr = c_core.PROPS["C11"]["streams"]
 PROPS["C11"] = dict(c_core.PROPS["C11"])
